@@ -84,6 +84,10 @@ def generate(streams: core.Streams, tier: str) -> dict:
                 expr += gen.pick(w, [" and ", " or ", " and not "]) + r["name"]
             c["correlation"]["condition"] = expr
             del c["correlation"]["rules"]
+        if "rules" in c["correlation"] and gen.chance(w, 0.3):
+            # a field alias: its mapping keys are rule references too
+            c["correlation"]["aliases"] = {"al": {gen.pick(w, refs): "User"}}
+            c["correlation"]["group-by"] = ["al"]
         for r in refs_docs:
             gen_flag[r["title"]] = g
         c["_refs"] = [r["title"] for r in refs_docs]
@@ -91,7 +95,11 @@ def generate(streams: core.Streams, tier: str) -> dict:
     dangling = None
     if corr and gen.chance(w, 0.12):
         victim = gen.pick(w, corr)
-        if "rules" in victim["correlation"]:
+        if gen.chance(w, 0.4):
+            # the missing rule is referred to by a field alias only
+            victim["correlation"]["aliases"] = {"al": {"no_such_rule": "User"}}
+            victim["correlation"]["group-by"] = ["al"]
+        elif "rules" in victim["correlation"]:
             victim["correlation"]["rules"] = list(victim["correlation"]["rules"]) + ["no_such_rule"]
         else:
             victim["correlation"]["condition"] += " and no_such_rule"
